@@ -44,6 +44,7 @@ type Program struct {
 	cgDyn     []*ssa.Function
 	cgDynFns  []*ssa.Function
 	cgIsDyn   map[*ssa.Function]bool
+	roMaps   map[*ssa.Global]bool
 	effCache  map[*ssa.Function]*Effect
 	dirCache  map[*ssa.Function]*Effect
 }
@@ -529,11 +530,27 @@ func (P *Program) expandTemplates() {
 				if ex.has("no-template") {
 					continue
 				}
-				ex.Clauses = append(ex.Clauses, t.Clauses...)
+				for _, tc := range t.Clauses {
+					cc := *tc
+					cc.Tmpl = true
+					if len(cc.Props) == 0 {
+						cc.Props = t.Props
+					}
+					ex.Clauses = append(ex.Clauses, &cc)
+				}
 				ex.Props = append(ex.Props, t.Props...)
 				continue
 			}
-			c := &Contract{Key: fn.RelString(fn.Pkg.Pkg), Pkg: t.Pkg, File: t.File, Line: t.Line, Props: t.Props, Clauses: append([]*Clause{}, t.Clauses...), FromTemplate: true}
+			var tcl []*Clause
+			for _, tc := range t.Clauses {
+				cc := *tc
+				cc.Tmpl = true
+				if len(cc.Props) == 0 {
+					cc.Props = t.Props
+				}
+				tcl = append(tcl, &cc)
+			}
+			c := &Contract{Key: fn.RelString(fn.Pkg.Pkg), Pkg: t.Pkg, File: t.File, Line: t.Line, Props: t.Props, Clauses: tcl, FromTemplate: true}
 			P.specs.ByKey[key] = c
 		}
 	}
